@@ -557,3 +557,20 @@ def _q4(run: Run, mod) -> None:
         if kw_.get("check", True) is False:
             run.violate("Q4", f"{MOD}:solve_for_scalar:check-disabled", mod, mod.tree,
                         "solve_for_scalar switches off sympy.solve's verification of candidate solutions (check=False): extraneous roots are returned as solutions")
+    # the caller's keywords belong to that call: a later call without keywords hands sympy.solve dict=True and nothing else
+    run.ob("Q4", "flags-do-not-outlive-the-call")
+    rd = R([{x: good1}])
+    try:
+        rd.call("solve_for_scalar", [var("f"), x], {"check": False, "simplify": False})
+        first = dict(rd.solve_kwargs or {})
+        rd.solve_kwargs = None
+        rd.call("solve_for_scalar", [var("g"), x])
+        second = dict(rd.solve_kwargs or {})
+    except Raised as r:
+        first, second = {}, {"<raises>": r.exc}
+    if first.get("check") is not False or first.get("simplify") is not False:
+        run.violate("Q4", f"{MOD}:solve_for_scalar:caller-flags-dropped", mod, mod.tree, f"the caller's keywords (check=False, simplify=False) do not reach sympy.solve: it is called with {first!r}")
+    if set(second) - {"dict"}:
+        run.violate("Q4", f"{MOD}:solve_for_scalar:flags-outlive-the-call", mod, mod.tree,
+                    f"after a call with the keywords check=False, simplify=False a call WITHOUT keywords hands sympy.solve {second!r}: the first caller's keywords are kept in "
+                    f"module-level state, so the verification of candidate roots stays switched off for everybody (Eq(sqrt(x), x - 2) then has the root 1)")
